@@ -69,6 +69,8 @@ fn case_strategy(_t: Tier) -> BoxedStrategy<Case> {
                 Some(_) => "1.0nb2".to_string(),
             };
             let name = if nodash && rel % 5 == 0 { nbase } else { format!("{}-{}", nbase, ver) };
+            // now and then the candidate is the pattern's own text
+            let name = if !nodash && v == 1 && rel % 4 == 3 { pattern.clone() } else { name };
             Case { pattern, name }
         })
         .boxed()
@@ -202,6 +204,8 @@ fn enumerate(tier: Tier) -> Box<dyn Iterator<Item = Case>> {
             }
             names.push(nb);
         }
+        // the pattern's own text as the candidate
+        names.push(p.clone());
         names.into_iter().map(move |n| Case { pattern: p.clone(), name: n })
     }))
 }
@@ -278,6 +282,102 @@ pub fn check_real(c: &Case, obs: &mut Obs) -> Result<(), String> {
     Ok(())
 }
 
+// ------------------------------------------------------------------ free-form stream
+
+/// characters of a free-form base (no braces, no operators, no control characters)
+fn base_char(c: char) -> bool {
+    !c.is_control() && !"{}<>".contains(c)
+}
+
+/// base = pool base, a token of the library's source, or two of them joined by '-';
+/// bounds and versions = free version-token sequences (letters and dictionary tokens included)
+fn free_strategy(_t: Tier) -> BoxedStrategy<Case> {
+    use crate::props::vergen;
+    let base = prop_oneof![
+        2 => (0usize..BASES.len()).prop_map(|i| BASES[i].to_string()),
+        3 => crate::engine::dict::string_token(base_char, "a"),
+        1 => (crate::engine::dict::string_token(base_char, "a"), crate::engine::dict::string_token(base_char, "b")).prop_map(|(a, b)| format!("{}-{}", a, b)),
+    ];
+    (
+        base,
+        prop::collection::vec((0usize..4, vergen::tokens(5)), 1..=2),
+        0u8..20,
+        prop::option::of(vergen::tokens(5)),
+        prop::collection::vec(vergen::edit(), 0..=2),
+        any::<u16>(),
+    )
+        .prop_map(|(base, ops, rel, ver, edits, sel)| {
+            let mut pattern = base.clone();
+            for (o, b) in &ops {
+                pattern.push_str(OPTXT[*o]);
+                pattern.push_str(&vergen::render(b, 18));
+            }
+            let nbase = if rel < 13 { base.clone() } else { related_base(&base, rel - 13) };
+            // the version: free, or one of the bounds after 0-2 edits
+            let ver = match ver {
+                Some(v) => vergen::render(&v, 18),
+                None => {
+                    let mut b = ops[crate::engine::gen::idx(sel, ops.len())].1.clone();
+                    for e in &edits {
+                        vergen::apply_edit(&mut b, e);
+                    }
+                    vergen::render(&b, 18)
+                }
+            };
+            let pattern = crate::models::dewey::cap_digit_runs(&pattern, 18);
+            // now and then the candidate is the pattern's own text
+            let name = if sel % 32 == 7 { pattern.clone() } else { crate::models::dewey::cap_digit_runs(&format!("{}-{}", nbase, ver), 18) };
+            Case { pattern, name }
+        })
+        .boxed()
+}
+
+/// compile agreement as in `check`, match verdicts with the KF-1 leniency of `check_real`
+pub fn check_free(c: &Case, obs: &mut Obs) -> Result<(), String> {
+    let (p, n) = (c.pattern.as_str(), c.name.as_str());
+    if p.contains(['{', '}']) || crate::models::dewey::longest_digit_run(p) > 18 || crate::models::dewey::longest_digit_run(n) > 18 {
+        obs.excluded = true;
+        return Ok(());
+    }
+    let model = m::dewey_compile(p);
+    let d = Dewey::new(p);
+    let pp = Pattern::new(p);
+    obs.verdicts += 2;
+    if d.is_ok() != model.is_ok() {
+        return Err(format!("Dewey::new({:?}) is {}, pattern model says {:?}", p, if d.is_ok() { "Ok" } else { "Err" }, model.as_ref().map(|_| "compiles")));
+    }
+    if p.contains(['<', '>']) && pp.is_ok() != model.is_ok() {
+        return Err(format!("Pattern::new({:?}) is {}, pattern model says {:?}", p, if pp.is_ok() { "Ok" } else { "Err" }, model.as_ref().map(|_| "compiles")));
+    }
+    let (Ok(dm), Ok(dd), Ok(pp)) = (model, d, pp) else {
+        obs.class("pattern-rejected");
+        obs.nontrivial = true;
+        return Ok(());
+    };
+    let want = m::dewey_matches(&dm, n, Letters::Rank);
+    let ascii = m::dewey_matches(&dm, n, Letters::AsciiLower);
+    for (what, got) in [("Pattern", pp.matches(n)), ("Dewey", dd.matches(n))] {
+        obs.verdicts += 1;
+        if got == want {
+            continue;
+        }
+        if want != ascii && got == ascii {
+            obs.known_hits.push(crate::props::c01::KF1);
+            continue;
+        }
+        return Err(format!("{} {:?} matches({:?}) = {}, model says {}", what, p, n, got, want));
+    }
+    obs.nontrivial = n.contains('-');
+    obs.class(if want { "match" } else { "no-match" });
+    if dm.bounds.len() == 2 {
+        obs.class("two-bounds");
+    }
+    if let Some(pos) = n.rfind('-') {
+        obs.class(if n[..pos] == dm.base { "base-equal" } else { "base-differs" });
+    }
+    Ok(())
+}
+
 pub fn property() -> Property {
     Property {
         id: "C02",
@@ -289,6 +389,7 @@ pub fn property() -> Property {
         streams: vec![
             random_stream("random", "random (pattern, name) pairs", case_strategy, |t| t.pick(200_000, 10_000_000), check),
             enumerated_stream("enumerated", "complete product: bases x operator shapes x bounds x base relations x versions", enumerate, check),
+            random_stream("free-form", "bases from the pool and from the library's own literals, bounds and versions as free token sequences (letters included, KF-1 leniency as in C01)", free_strategy, |t| t.pick(60_000, 5_000_000), check_free),
             random_stream("realistic", "real pkgsrc dewey patterns (sample of tests/data/pkgdeps.txt) against real package versions (pkgnames.txt), KF-1 leniency as in C01", real_strategy, |t| t.pick(60_000, 5_000_000), check_real),
         ],
         selfcheck: m::selfcheck,
